@@ -302,9 +302,14 @@ pub struct BatchResult {
 
 /// Runs one engine over `count` scenario indices on WORKERS processes and merges the results.
 pub fn run_engine(e: &EngineDef, seed: u64, tier: Tier, count: u64, workers: u64) -> BatchResult {
-    let deadline = match tier {
-        Tier::Quick => Duration::from_secs(900),
-        Tier::Thorough => Duration::from_secs(3 * 3600),
+    // (an isolated scenario - one process each - normally takes well under a second; a short deadline
+    // means that an interpreter that blocks, e.g. two sim-threads inside a real `OnceLock`, seeded
+    // change e16a, is attributed after minutes instead of a quarter of an hour)
+    let deadline = match (tier, e.isolate) {
+        (Tier::Quick, true) => Duration::from_secs(180),
+        (Tier::Thorough, true) => Duration::from_secs(900),
+        (Tier::Quick, false) => Duration::from_secs(900),
+        (Tier::Thorough, false) => Duration::from_secs(3 * 3600),
     };
     // more jobs than processes running at a time: evens out scenarios of very different cost
     let njobs = if e.isolate { count } else if workers > 1 { workers * 6 } else { 1 };
